@@ -1,6 +1,6 @@
 (* Non-vacuity: concrete graphs meeting the hypotheses of the C02 theorems. *)
 From V Require Import Common.Base C02.Graph C02.Order C02.SpecESM C02.Wrap C02.Resolve C02.ResolveSpec
-  C02.DataUrl C02.SpecDataUrl C02.OrderProofs C02.OrderEsmProofs C02.ResolveProofs C02.WrapProofs C02.DataUrlProofs C02.Emit C02.EmitProofs C02.ResolveChainProofs C02.ResolveDen C02.SpecDenProofs C02.StarHitsProofs C02.StarDenProofs C02.LinkDenProofs C02.ResolveStarsProofs C02.EvalOrder C02.EvalOrderProofs C02.WrapMinProofs C02.WrapGraph C02.WrapExactProofs C02.Interop C02.InteropProofs.
+  C02.DataUrl C02.SpecDataUrl C02.OrderProofs C02.OrderEsmProofs C02.ResolveProofs C02.WrapProofs C02.DataUrlProofs C02.Emit C02.EmitProofs C02.ResolveChainProofs C02.ResolveDen C02.SpecDenProofs C02.StarHitsProofs C02.StarDenProofs C02.LinkDenProofs C02.ResolveStarsProofs C02.EvalOrder C02.EvalOrderProofs C02.WrapMinProofs C02.WrapGraph C02.WrapExactProofs C02.Interop C02.InteropProofs C02.ResolveCycleProofs.
 
 (* diamond with a back edge: 1 -> 2,3 ; 2 -> 4 ; 3 -> 4 ; 4 -> 1 (cycle); file 0 is the runtime *)
 Definition ex_graph : graph :=
@@ -255,3 +255,16 @@ Example ex_interop_values :
   /\ bundle_get true (IFStatement false) c 1 = VKey 1 /\ bundle_get true IFDynamic c 2 = VUndefined
   /\ interop_domain false c 0 = false /\ bundle_get false IFDynamic c 0 = VKey 0.
 Proof. vm_compute. repeat split; reflexivity. Qed.
+
+(* a member of domain3 (resolve_is_spec_partial_bounded4): the 3-cycle of export stars 1 -> 2 -> 3 -> 1,
+   file 3 also star-exports 4; x is local in 2 and in 4.  Asked for x, files 1 and 2 answer with 2's
+   binding (a local export shadows the stars), file 3 is ambiguous (2's through the cycle, 4's directly),
+   in the linker and in ResolveExport alike *)
+Definition ex_cycle3 : list module :=
+  [ mk_file 1 [(1, XNone)] [2%nat]; mk_file 2 [(1, XLoc)] [3%nat]; mk_file 3 [(1, XNone)] [1; 4]%nat; mk_file 4 [(1, XLoc)] [] ].
+Example ex_cycle3_verdicts :
+  let g := graph_of [1; 2; 3; 4]%nat [1] ex_cycle3 in
+  map (fun ni => (link_verdict g (seq 0 (length g)) 5 ni, spec_verdict g 5 ni)) (m_imports (getm g 5))
+  = [(Some (VFound 2 1), Some (VFound 2 1)); (Some (VFound 2 1), Some (VFound 2 1));
+     (Some VAmbiguous, Some VAmbiguous); (Some (VFound 4 1), Some (VFound 4 1))].
+Proof. vm_compute. reflexivity. Qed.
